@@ -1,39 +1,185 @@
-// C25: tracer (engine S, path enumeration on max_element/min_element) and driver for the isotropic Hashin-Shtrikman bounds.
-//   trace gen <out.v> [seed] : decision trees of computeIsotropicHashinShtrikmanBounds<3> and <2> for two phases -> [K_L; mu_L; K_U; mu_U]
-//   trace run [seed] [n]     : the real double code on seeded 2..5-phase microstructures (d=2,3)
+// C25: tracer (engine S, path enumeration) and driver for the homogenisation bounds and schemes of /repo.
+//   trace gen <out.v> [seed] : Coq definitions regenerated from the C++ (hs<d>_<N>, voigt<d>_2, sphere_enu, sphere_tensors) + AGREE lines
+//   trace run [seed] [n]     : the real double code on the corpus and on seeded microstructures; judged by check.py
 #include "symtfel.hxx"
 #include "TFEL/Material/LinearHomogenizationBounds.hxx"
+#include "TFEL/Material/LinearHomogenizationSchemes.hxx"
+#include "TFEL/Material/IsotropicEshelbyTensor.hxx"
+#include "TFEL/Material/LocalisationTensor.hxx"
+#include "TFEL/Material/MicrostructureLinearHomogenization.hxx"
 #include <cstring>
 #include <iostream>
 using namespace symv;
 namespace he = tfel::material::homogenization::elasticity;
+namespace tmat = tfel::material;
+using tfel::math::st2tost2;
 
+// the repo's reportContractViolation prints and aborts; here a violated contract is an exception (a `None` leaf of the trees)
+namespace tfel {
+  void reportContractViolation(const char* const msg) { throw std::runtime_error(std::string("contract violation: ") + msg); }
+}  // namespace tfel
+
+template <unsigned short d, typename T>
+std::vector<T> flat(const st2tost2<d, T>& C) {
+  constexpr unsigned short n = tfel::math::StensorDimeToSize<d>::value;
+  std::vector<T> r;
+  for (unsigned short i = 0; i < n; ++i)
+    for (unsigned short j = 0; j < n; ++j) r.push_back(C(i, j));
+  return r;
+}
+template <typename T>
+void append(std::vector<T>& a, const std::vector<T>& b) { a.insert(a.end(), b.begin(), b.end()); }
+
+// ---- Hashin-Shtrikman bounds: x = f[N] K[N] mu[N] -> [K_L; mu_L; K_U; mu_U]
 template <unsigned short d, typename T>
 std::vector<T> hs(std::vector<T> f, std::vector<T> K, std::vector<T> mu) {
   auto r = he::computeIsotropicHashinShtrikmanBounds<d, T>(std::span<T>(f), std::span<T>(K), std::span<T>(mu));
   return {r.first.first, r.first.second, r.second.first, r.second.second};
 }
-template <unsigned short d>
-void gen(Trace& tr, Rng& rng, int& nag, int& nfail) {
-  Sym f0 = var("f0"), f1 = var("f1"), K0 = var("K0"), K1 = var("K1"), m0 = var("m0"), m1 = var("m1");
-  std::vector<Sym> ps{f0, f1, K0, K1, m0, m1};
-  const std::string nm = "hs" + std::to_string(d) + "_2";
-  auto leaves = tr.def_paths(nm, ps, [&] { return hs<d, Sym>({f0, f1}, {K0, K1}, {m0, m1}); });
-  for (int k = 0; k < 40; ++k) {
-    const double a = rng.range(0.05, 0.95);
-    double v[6] = {a, 1 - a, rng.range(1., 100.), rng.range(1., 100.), rng.range(1., 60.), rng.range(1., 60.)};
-    if (k % 5 == 0) v[5] = v[4];  // tie on the shear moduli
-    Env env{{"f0", v[0]}, {"f1", v[1]}, {"K0", v[2]}, {"K1", v[3]}, {"m0", v[4]}, {"m1", v[5]}};
+template <unsigned short d, int N, typename T>
+std::vector<T> hsx(const std::vector<T>& x) {
+  return hs<d, T>(std::vector<T>(x.begin(), x.begin() + N), std::vector<T>(x.begin() + N, x.begin() + 2 * N),
+                  std::vector<T>(x.begin() + 2 * N, x.begin() + 3 * N));
+}
+// ---- isotropic stiffness of a phase 3 K J + 2 mu K (J, K: the library's projectors, 6x6 in 3D and 4x4 in plane strain)
+template <unsigned short d, typename T>
+st2tost2<d, T> isoC(const T& K, const T& mu) {
+  const st2tost2<d, T> C = 3 * K * st2tost2<d, T>::J() + 2 * mu * st2tost2<d, T>::K();
+  return C;
+}
+// f[N] K[N] mu[N] -> Voigt (n*n) (++ Reuss (n*n) when asked: needs the LU inversion, double only)
+template <unsigned short d, typename T>
+std::vector<T> voigt_reuss(const std::vector<T>& x, int N, bool with_reuss) {
+  std::vector<T> f(x.begin(), x.begin() + N);
+  std::vector<st2tost2<d, T>> C;
+  for (int i = 0; i < N; ++i) C.push_back(isoC<d, T>(x[N + i], x[2 * N + i]));
+  auto r = flat<d, T>(he::computeVoigtStiffness<d, T>(std::span<T>(f), std::span<st2tost2<d, T>>(C)));
+  if constexpr (std::is_same_v<T, double>) {
+    if (with_reuss) append(r, flat<d, T>(he::computeReussStiffness<d, T>(std::span<T>(f), std::span<st2tost2<d, T>>(C))));
+  }
+  return r;
+}
+// x = E0 nu0 f Ei nui -> [E_dilute; nu_dilute; E_MT; nu_MT]   (closed forms for spheres, (young, nu) overloads)
+template <typename T>
+std::vector<T> sphere_enu(const std::vector<T>& x) {
+  const auto a = he::computeSphereDiluteScheme<T>(x[0], x[1], x[2], x[3], x[4]);
+  const auto b = he::computeSphereMoriTanakaScheme<T>(x[0], x[1], x[2], x[3], x[4]);
+  return {a.young, a.nu, b.young, b.nu};
+}
+// x = E0 nu0 Ei nui -> Eshelby S (36) ++ Hill P (36) ++ localisation A (36), spheres
+template <typename T>
+std::vector<T> sphere_tensors(const std::vector<T>& x) {
+  auto r = flat<3u, T>(he::computeSphereEshelbyTensor<T>(x[1]));
+  append(r, flat<3u, T>(he::computeSphereHillPolarisationTensor<T>(x[0], x[1])));
+  append(r, flat<3u, T>(he::computeSphereLocalisationTensor<T>(x[0], x[1], x[2], x[3])));
+  return r;
+}
+
+// ---------------------------------------------------------------------------------------------------------------- gen
+static int g_ok = 0, g_fail = 0;
+using DF = std::function<std::vector<double>(const std::vector<double>&)>;
+using Gen = std::function<std::vector<double>(Rng&, int)>;
+static void agree(const char* name, const std::vector<Leaf>& leaves, const std::vector<Sym>& ps, Rng& rng, int n, const DF& fd, const Gen& gen,
+                  long double tol = 1e-10L) {
+  for (int it = 0; it < n; ++it) {
+    const auto x = gen(rng, it);
+    Env env;
+    for (size_t k = 0; k < ps.size(); ++k) env[Store::get().nodes[node_of(ps[k])].name] = x[k];
     std::vector<long double> r;
-    auto dv = hs<d, double>({v[0], v[1]}, {v[2], v[3]}, {v[4], v[5]});
-    bool ok = eval_leaves(leaves, env, r) && r.size() == dv.size();
-    for (size_t i = 0; ok && i < dv.size(); ++i) ok = close(r[i], dv[i], 0, 1e-10L);
-    std::printf("%s %s case %d\n", ok ? "AGREE" : "AGREE-FAIL", nm.c_str(), k);
-    ok ? ++nag : ++nfail;
+    std::string err;
+    bool ok = eval_leaves(leaves, env, r, &err) && err.empty();
+    std::vector<double> dv;
+    if (ok) {
+      dv = fd(x);
+      ok = dv.size() == r.size();
+    }
+    long double sc = 1e-300L;
+    for (auto v : r) sc = std::max(sc, std::fabs(v));
+    for (size_t i = 0; ok && i < dv.size(); ++i) ok = std::fabs(r[i] - dv[i]) <= tol * sc;
+    std::printf("%s %s case %d", ok ? "AGREE" : "AGREE-FAIL", name, it);
+    if (!ok)
+      for (double v : x) std::printf(" %.17g", v);
+    std::printf("\n");
+    ok ? ++g_ok : ++g_fail;
   }
 }
+static std::vector<Leaf> one_leaf(const std::vector<Sym>& out) {
+  Leaf L;
+  L.out = out;
+  return {L};
+}
+static double lu(Rng& r, double a, double b) { return std::exp(r.range(std::log(a), std::log(b))); }
+
+template <unsigned short d, int N>
+void gen_hs(Trace& tr, Rng& rng) {
+  std::vector<Sym> ps = vars("f", N);
+  append(ps, vars("K", N));
+  append(ps, vars("m", N));
+  const std::string nm = "hs" + std::to_string(d) + "_" + std::to_string(N);
+  auto leaves = tr.def_paths(nm, ps, [&] { return hsx<d, N, Sym>(ps); });
+  agree(nm.c_str(), leaves, ps, rng, N == 2 ? 40 : 60, [](const std::vector<double>& x) { return hsx<d, N, double>(x); },
+        [](Rng& r, int k) {
+          std::vector<double> x(3 * N);
+          double s = 0;
+          for (int i = 0; i < N; ++i) s += (x[i] = r.range(0.05, 1.));
+          for (int i = 0; i < N; ++i) {
+            x[i] /= s;
+            x[N + i] = lu(r, 0.5, 500.);
+            x[2 * N + i] = lu(r, 0.5, 300.);
+          }
+          if (k % 5 == 0) x[2 * N + 1] = x[2 * N];                                    // tie on the shear moduli
+          if (k % 7 == 0) { x[N + 1] = x[N]; x[2 * N + 1] = x[2 * N]; }               // tie on H as well
+          if (k % 3 == 1) { x[N] = 50 * x[2 * N]; x[N + 1] = 0.675 * x[2 * N + 1]; }  // non well-ordered, high contrast
+          return x;
+        });
+}
 template <unsigned short d>
-void run(Rng& rng, int n) {
+void gen_voigt(Trace& tr, Rng& rng) {
+  std::vector<Sym> ps{var("f0"), var("f1"), var("K0"), var("K1"), var("m0"), var("m1")};
+  const std::string nm = "voigt" + std::to_string(d) + "_2";
+  const auto out = voigt_reuss<d, Sym>(ps, 2, false);
+  tr.def(nm, ps, out);
+  agree(nm.c_str(), one_leaf(out), ps, rng, 20, [](const std::vector<double>& x) { return voigt_reuss<d, double>(x, 2, false); },
+        [](Rng& r, int) {
+          const double a = r.range(0.05, 0.95);
+          return std::vector<double>{a, 1 - a, lu(r, 0.5, 500.), lu(r, 0.5, 500.), lu(r, 0.5, 300.), lu(r, 0.5, 300.)};
+        });
+}
+
+// ---------------------------------------------------------------------------------------------------------------- run
+static void pv(const std::vector<double>& v) {
+  for (double x : v) std::printf(" %.17g", x);
+}
+template <unsigned short d>
+void run_hs_case(const std::vector<double>& f, const std::vector<double>& K, const std::vector<double>& mu, const char* tag) {
+  const auto r = hs<d, double>(f, K, mu);
+  std::printf("HS %d %d %s |", int(d), int(f.size()), tag);
+  pv(f);
+  std::printf(" |");
+  pv(K);
+  std::printf(" |");
+  pv(mu);
+  std::printf(" |");
+  pv(r);
+  std::printf("\n");
+  std::vector<double> x = f;
+  append(x, K);
+  append(x, mu);
+  std::printf("VR %d %d |", int(d), int(f.size()));
+  pv(x);
+  std::printf(" |");
+  pv(voigt_reuss<d, double>(x, static_cast<int>(f.size()), true));
+  std::printf("\n");
+}
+template <unsigned short d>
+void run_hs(Rng& rng, int n) {
+  // corpus: non well-ordered, high-contrast microstructures (the phase of smallest shear modulus has the largest auxiliary modulus H)
+  run_hs_case<d>({0.5, 0.5}, {50, 0.81}, {1, 1.2}, "corpus");
+  run_hs_case<d>({0.3, 0.7}, {0.81, 50}, {1.2, 1}, "corpus");
+  run_hs_case<d>({0.2, 0.3, 0.5}, {400, 0.9, 3}, {1, 1.3, 1.1}, "corpus");
+  run_hs_case<d>({0.25, 0.25, 0.25, 0.25}, {1000, 1, 30, 0.7}, {1, 1.4, 1.2, 1.5}, "corpus");
+  run_hs_case<d>({0.1, 0.2, 0.3, 0.15, 0.25}, {0.6, 900, 2, 70, 0.75}, {2, 1, 1.5, 1.2, 1.9}, "corpus");
+  run_hs_case<d>({0.5, 0.5}, {1e4, 1e-2}, {1, 1.01}, "corpus");
   for (int k = 0; k < n; ++k) {
     const int N = 2 + k % 4;
     std::vector<double> f(N), K(N), mu(N);
@@ -41,37 +187,136 @@ void run(Rng& rng, int n) {
     for (int i = 0; i < N; ++i) s += (f[i] = rng.range(0.05, 1.));
     for (int i = 0; i < N; ++i) {
       f[i] /= s;
-      K[i] = std::exp(rng.range(std::log(0.5), std::log(500.)));
-      mu[i] = std::exp(rng.range(std::log(0.5), std::log(300.)));
+      K[i] = lu(rng, 0.5, 500.);
+      mu[i] = lu(rng, 0.5, 300.);
     }
     if (k % 7 == 0) mu[1] = mu[0];
     if (k % 11 == 0) K[1] = K[0];
-    auto r = hs<d, double>(f, K, mu);
-    std::printf("RUN %d %d |", int(d), N);
-    for (double x : f) std::printf(" %.17g", x);
+    if (k % 3 == 1)  // anti-ordered: the larger the shear modulus, the (much) smaller the bulk modulus
+      for (int i = 0; i < N; ++i) K[i] = (i % 2 ? 0.675 : 50.) * mu[i] * rng.range(0.9, 1.1);
+    run_hs_case<d>(f, K, mu, "seeded");
+  }
+}
+static std::vector<double> micro_run(he::ParticulateMicrostructure<3u, double>& micro, int kind) {
+  const auto h = kind == 0   ? he::computeDilute<3u, double>(micro)
+                 : kind == 1 ? he::computeMoriTanaka<3u, double>(micro)
+                             : he::computeSelfConsistent<3u, double>(micro, 1e-13, true);
+  auto r = flat<3u, double>(h.homogenized_stiffness);
+  for (const auto& A : h.mean_strain_localisation_tensors) append(r, flat<3u, double>(A));
+  return r;
+}
+static void run_schemes(Rng& rng, int n) {
+  using KG = tmat::KGModuli<double>;
+  for (int k = 0; k < n; ++k) {
+    double k0 = lu(rng, 0.5, 500.), m0 = lu(rng, 0.5, 300.), ki = lu(rng, 0.5, 500.), mi = lu(rng, 0.5, 300.), f = rng.range(0.01, 0.6);
+    if (k % 4 == 0) f = 0;
+    if (k % 8 == 1) { ki = k0 * rng.range(1.5, 50.); mi = m0 * rng.range(1.5, 50.); }  // matrix softest
+    if (k % 8 == 2) { ki = k0 / rng.range(1.5, 50.); mi = m0 / rng.range(1.5, 50.); }  // matrix stiffest
+    const std::vector<double> x{k0, m0, f, ki, mi};
+    const auto a = he::computeSphereDiluteScheme<double>(KG(k0, m0), f, KG(ki, mi));
+    const auto b = he::computeSphereMoriTanakaScheme<double>(KG(k0, m0), f, KG(ki, mi));
+    std::printf("SPH |");
+    pv(x);
+    std::printf(" | %.17g %.17g %.17g %.17g\n", a.kappa, a.mu, b.kappa, b.mu);
+    const auto E0 = KG(k0, m0).ToYoungNu(), Ei = KG(ki, mi).ToYoungNu();
+    const auto A = he::computeSphereLocalisationTensor<double>(E0.young, E0.nu, Ei.young, Ei.nu);
+    std::printf("TEN |");
+    pv(x);
     std::printf(" |");
-    for (double x : K) std::printf(" %.17g", x);
+    pv(flat<3u, double>(he::computeDiluteScheme<double>(E0.young, E0.nu, f, Ei.young, Ei.nu, A)));
     std::printf(" |");
-    for (double x : mu) std::printf(" %.17g", x);
-    std::printf(" | %.17g %.17g %.17g %.17g\n", r[0], r[1], r[2], r[3]);
+    pv(flat<3u, double>(he::computeMoriTanakaScheme<double>(E0.young, E0.nu, f, Ei.young, Ei.nu, A)));
+    std::printf("\n");
+    for (int kind = 0; kind < 3; ++kind) {
+      he::ParticulateMicrostructure<3u, double> micro(KG(k0, m0));
+      he::Sphere<double> sph;
+      he::SphereDistribution<double> dist(sph, f, KG(ki, mi));
+      if (!micro.addInclusionPhase(dist)) continue;
+      std::printf("MIC %d sphere |", kind);
+      pv(x);
+      std::printf(" |");
+      pv(micro_run(micro, kind));
+      std::printf("\n");
+    }
+    // spheroidal / ellipsoidal inclusions: execution only
+    const double e = (k % 2 ? lu(rng, 1.2, 20.) : 1 / lu(rng, 1.2, 20.));
+    for (int kind = 0; kind < 3; ++kind) {
+      he::ParticulateMicrostructure<3u, double> micro(KG(k0, m0));
+      he::Spheroid<double> sphero(e, 1.);
+      he::IsotropicDistribution<double> dist(sphero, f, KG(ki, mi));
+      if (!micro.addInclusionPhase(dist)) continue;
+      std::printf("MIC %d spheroid_iso |", kind);
+      pv(x);
+      std::printf(" %.17g |", e);
+      pv(micro_run(micro, kind));
+      std::printf("\n");
+    }
+    for (int kind = 0; kind < 2; ++kind) {
+      he::ParticulateMicrostructure<3u, double> micro(KG(k0, m0));
+      he::Ellipsoid<double> ell(lu(rng, 2., 10.), lu(rng, 1.1, 1.9), 1.);
+      const double th = rng.range(0., 3.);
+      tfel::math::tvector<3u, double> na{std::cos(th), std::sin(th), 0.}, nb{-std::sin(th), std::cos(th), 0.};
+      he::OrientedDistribution<double> dist(ell, f, KG(ki, mi), na, nb);
+      if (!micro.addInclusionPhase(dist)) continue;
+      std::printf("MIC %d ellipsoid_oriented |", kind);
+      pv(x);
+      std::printf(" %.17g |", th);
+      pv(micro_run(micro, kind));
+      std::printf("\n");
+    }
+    // Eshelby tensors: sphere, spheroid, ellipsoid (nu of the matrix)
+    const double nu = E0.nu;
+    std::printf("ESH sphere | %.17g 1 1 1 |", nu);
+    pv(flat<3u, double>(he::computeSphereEshelbyTensor<double>(nu)));
+    std::printf("\n");
+    std::printf("ESH spheroid | %.17g %.17g 1 1 |", nu, e);
+    pv(flat<3u, double>(he::computeAxisymmetricalEshelbyTensor<double>(nu, e)));
+    std::printf("\n");
+    const double aa = lu(rng, 2., 10.), bb = lu(rng, 1.1, 1.9);
+    std::printf("ESH ellipsoid | %.17g %.17g %.17g 1 |", nu, aa, bb);
+    pv(flat<3u, double>(he::computeEshelbyTensor<double>(nu, aa, bb, 1.)));
+    std::printf("\n");
+    // continuity with the sphere just outside the switching tolerance
+    std::printf("ESH nearsphere | %.17g %.17g 1 1 |", nu, 1.001);
+    pv(flat<3u, double>(he::computeAxisymmetricalEshelbyTensor<double>(nu, 1.001)));
+    std::printf("\n");
   }
 }
 int main(int argc, char** argv) {
   if (argc >= 3 && !std::strcmp(argv[1], "gen")) {
     Trace tr("C25_gen");
     Rng rng(argc >= 4 ? std::strtoull(argv[3], nullptr, 10) : 1);
-    int nag = 0, nfail = 0;
-    gen<3>(tr, rng, nag, nfail);
-    gen<2>(tr, rng, nag, nfail);
+    gen_hs<3, 2>(tr, rng);
+    gen_hs<2, 2>(tr, rng);
+    gen_hs<3, 3>(tr, rng);
+    gen_hs<2, 3>(tr, rng);
+    gen_voigt<3>(tr, rng);
+    gen_voigt<2>(tr, rng);
+    {
+      std::vector<Sym> ps{var("E0"), var("nu0"), var("f"), var("Ei"), var("nui")};
+      auto l = tr.def_paths("sphere_enu", ps, [&] { return sphere_enu<Sym>(ps); });
+      agree("sphere_enu", l, ps, rng, 40, [](const std::vector<double>& x) { return sphere_enu<double>(x); }, [](Rng& r, int k) {
+        std::vector<double> x{lu(r, 0.5, 500.), r.range(-0.5, 0.49), r.range(0., 1.), lu(r, 0.5, 500.), r.range(-0.5, 0.49)};
+        if (k % 6 == 0) x[2] = 0;
+        if (k % 6 == 1) x[2] = 1;
+        return x;
+      });
+      std::vector<Sym> p4{var("E0"), var("nu0"), var("Ei"), var("nui")};
+      const auto out = sphere_tensors<Sym>(p4);
+      tr.def("sphere_tensors", p4, out);
+      agree("sphere_tensors", one_leaf(out), p4, rng, 30, [](const std::vector<double>& x) { return sphere_tensors<double>(x); },
+            [](Rng& r, int) { return std::vector<double>{lu(r, 0.5, 500.), r.range(-0.5, 0.49), lu(r, 0.5, 500.), r.range(-0.5, 0.49)}; });
+    }
     tr.write(argv[2]);
-    std::printf("SUMMARY agree=%d fail=%d\n", nag, nfail);
+    std::printf("SUMMARY agree=%d fail=%d\n", g_ok, g_fail);
     return 0;
   }
   if (argc >= 2 && !std::strcmp(argv[1], "run")) {
     Rng rng(argc >= 3 ? std::strtoull(argv[2], nullptr, 10) : 1);
     const int n = argc >= 4 ? std::atoi(argv[3]) : 50;
-    run<3>(rng, n);
-    run<2>(rng, n);
+    run_hs<3>(rng, n);
+    run_hs<2>(rng, n);
+    run_schemes(rng, std::max(8, n / 5));
     return 0;
   }
   return 2;
